@@ -91,7 +91,18 @@ PrimFailing(ev) ==
             \cup (IF ev.dev_milli <= (IF g.p = "fillet" THEN 2300 ELSE KDev) THEN {}
                   ELSE {<<0, g.p, "strays_from_outline">>}))
 
+\* ---- closed interpolation ------------------------------------------------------------------
+\* [M] the closed curve through the knots (with per-knot angle constraints and tensions) does not depend
+\* on the knot it is started from: the two polylines lie within the sampling budget of each other,
+\* pass through every knot and close
+ItpClosedFailing(ev) ==
+    (IF ev.finite /\ ev.na >= 3 /\ ev.nb >= 3 THEN {} ELSE {<<0, "interpolation", "no_or_non_finite_vertices">>})
+    \cup (IF ev.dev_milli <= 2 * KDev THEN {} ELSE {<<0, "interpolation", "closed_curve_depends_on_the_starting_knot">>})
+    \cup (IF ev.knots_milli <= KDev THEN {} ELSE {<<0, "interpolation", "misses_interpolation_point">>})
+    \cup (IF ev.closed_milli <= KDev THEN {} ELSE {<<0, "interpolation", "closed_curve_does_not_close">>})
+
 Check(ev) == CASE ev.e = "curve" -> CurveFailing(ev)
+               [] ev.e = "itpclosed" -> ItpClosedFailing(ev)
                [] ev.e = "prim" -> PrimFailing(ev)
                [] OTHER -> {<<0, ev.e, "event">>}
 TInit == l = 1
